@@ -64,56 +64,6 @@ pub(crate) mod k {
 
     const LIM4: u32 = if crate::__verif::THOROUGH { 1 << 12 } else { 1 << 8 };
 
-    // ---- R-P: parallel_aabb_group = greedy matching over an opaque relation -------------------
-    pub(crate) static mut REL: [[bool; 4]; 4] = [[false; 4]; 4];
-
-    /// the i-th fragment of the harness is a circle of radius i: that is how the stub knows it
-    fn index_of(f: &Fragment) -> usize {
-        match f {
-            Fragment::Circle(c) => {
-                if c.radius == 0.0 { 0 } else if c.radius == 1.0 { 1 } else if c.radius == 2.0 { 2 } else { 3 }
-            }
-            _ => 0,
-        }
-    }
-
-    pub(crate) fn stub_frag_is_aabb_parallel(a: &Fragment, b: &Fragment) -> bool {
-        unsafe { REL[index_of(a)][index_of(b)] }
-    }
-
-    fn dummy(i: f32) -> Fragment {
-        Fragment::Circle(Circle::new(Point::new(0.0, 0.0), i, false))
-    }
-
-    #[kani::proof]
-    #[kani::unwind(6)]
-    #[kani::stub(crate::buffer::fragment_buffer::fragment::Fragment::is_aabb_parallel, stub_frag_is_aabb_parallel)]
-    pub(crate) fn check_parallel_aabb_group4() {
-        let rel: [[bool; 4]; 4] = kani::any();
-        let frags = [dummy(0.0), dummy(1.0), dummy(2.0), dummy(3.0)];
-        unsafe {
-            REL = rel;
-        }
-        kani::cover!(true);
-        let refs = [&frags[0], &frags[1], &frags[2], &frags[3]];
-        let r = parallel_aabb_group(&refs);
-        let (want, k) = spec_greedy(4, |i, j| rel[i][j]);
-        assert!(r.len() == k && k <= 2, "as many pairs as the greedy matching");
-        kani::cover!(k == 2);
-        let mut q = 0;
-        while q < 2 {
-            if q < k {
-                assert!(r[q] == want[q], "the greedy pair in lexicographic order");
-                assert!(r[q].0 != r[q].1 && r[q].0 < 4 && r[q].1 < 4 && rel[r[q].0][r[q].1], "a pair of distinct, related indices");
-            }
-            q += 1;
-        }
-        if k == 2 {
-            assert!(r[0].0 != r[1].0 && r[0].0 != r[1].1 && r[0].1 != r[1].0 && r[0].1 != r[1].1, "no index used twice");
-        }
-        std::mem::forget(r);
-    }
-
     // ---- F-P: only lines are parallel; Line::is_aabb_parallel is what the statement says ---------
     #[kani::proof]
     #[kani::unwind(7)]
@@ -466,6 +416,49 @@ pub(crate) mod b {
                                 }
                             }
                         }
+                    }
+                }
+            }
+        }
+        println!("BOUNDED-CASES {}", n);
+    }
+
+    /// R-P (bounded stand-in): parallel_aabb_group = greedy matching in lexicographic order over the
+    /// real `is_aabb_parallel` relation, for every 4-tuple from a pool
+    #[test]
+    fn bounded_parallel_aabb_group() {
+        let l = |a: (f32, f32), b: (f32, f32), br: bool| Fragment::Line(Line::new(Point::new(a.0, a.1), Point::new(b.0, b.1), br));
+        let pool = vec![
+            l((0.0, 0.0), (2.0, 0.0), false),
+            l((0.0, 4.0), (2.0, 4.0), true),
+            l((0.0, 6.0), (2.0, 6.0), false),
+            l((0.0, 0.0), (0.0, 4.0), false),
+            l((2.0, 0.0), (2.0, 4.0), false),
+            l((0.0, 0.0), (2.0, 4.0), false),
+            l((1.0, 0.0), (3.0, 0.0), false),
+            Fragment::Circle(Circle::new(Point::new(1.0, 1.0), 1.0, false)),
+            Fragment::Arc(Arc::new(Point::new(0.0, 0.0), Point::new(1.0, 1.0), 1.0)),
+        ];
+        let mut n = 0u64;
+        let k = pool.len();
+        for a in 0..k {
+            for b in 0..k {
+                for c in 0..k {
+                    for d in 0..k {
+                        let refs = [&pool[a], &pool[b], &pool[c], &pool[d]];
+                        let got = parallel_aabb_group(&refs);
+                        let (want, cnt) = spec_greedy(4, |i, j| refs[i].is_aabb_parallel(refs[j]));
+                        if got.len() != cnt || got.iter().zip(want.iter()).any(|(g, w)| g != w) {
+                            println!("BOUNDED-WITNESS parallel_aabb_group on pool indices {:?}: {:?} (greedy: {:?})", [a, b, c, d], got, &want[..cnt.min(4)]);
+                            panic!("parallel_aabb_group = greedy matching");
+                        }
+                        for (i, j) in &got {
+                            if refs[*i].as_line().is_none() || refs[*j].as_line().is_none() {
+                                println!("BOUNDED-WITNESS pair names a non-line {:?}", [a, b, c, d]);
+                                panic!("pairs only name lines");
+                            }
+                        }
+                        n += 1;
                     }
                 }
             }
